@@ -200,14 +200,29 @@ def _mk(ctx, lib, sty, bodies):
              (core.callee_base(s["key"]) == "core::convert::Into::into" and s["c"].targ_s(0) == "MatchKind" and s["c"].targ_s(1) == "u8")]
     ok = len(pushes) == 1 and len(froms) == 1 and m(Par(2), pushes[0]["args"][0]) and len(S.calls) == 2 and \
         m(Par(1), froms[0]["args"][0]) and m(Par(1), pushes[0]["args"][1])
+    if not ok and len(froms) == 1 and not pushes:
+        # ... or through u8's own Serializable impl (one byte: SER-PRIM width:u8)
+        w8 = [s for s in S.calls if s["name"] == W and self_ty(s["c"]) == "u8"]
+        ok = len(w8) == 1 and len(S.calls) == 2 and m(Par(1), froms[0]["args"][0]) and m(Par(1), w8[0]["args"][0]) and m(Par(2), w8[0]["args"][1])
     ctx.check(ok, "SER-MK", wb, "writer-one-byte", wb.span, "writer must push exactly u8::from(*self)")
     RS = Sites(lib, rb)
-    froms = [s for s in RS.calls if s["c"].body_path == from_u8.path]
+    froms = [s for s in RS.calls if s["c"].body_path == from_u8.path or
+             (core.callee_base(s["key"]) == "core::convert::Into::into" and s["c"].targ_s(0) == "u8" and s["c"].targ_s(1) == "MatchKind")]
     ret = pnorm(FnView(lib, rb).root.ret())
     okr = len(froms) == 1 and m(E(Par(1), K(0)), froms[0]["args"][0]) and \
-        m(("tuple", (ANY, E(Par(1), ("agg", "core::ops::RangeFrom", "RangeFrom", (("start", K(1)),))))), ret)
+        m(("tuple", (E(Par(1), K(0)), E(Par(1), ("agg", "core::ops::RangeFrom", "RangeFrom", (("start", K(1)),))))), ret)
+    if not okr and len(froms) == 1:
+        r8 = [s for s in RS.calls if s["name"] == R_ and self_ty(s["c"]) == "u8"]
+        if len(r8) == 1 and m(Par(1), r8[0]["args"][0]):
+            c8 = C(anykey, ANY, site=(rb.path, r8[0]["bb"]))
+            okr = m(F(c8, "0", "(tuple)"), froms[0]["args"][0]) and m(("tuple", (F(c8, "0", "(tuple)"), F(c8, "1", "(tuple)"))), ret)
     ctx.check(okr, "SER-MK", rb, "reader-one-byte", rb.span, "reader must decode src[0] and return src[1..]; returns %s" % show(ret))
-    ctx.check(_const_ret(lib, sb) == 1, "SER-MK", sb, "size-one", sb.span, "MatchKind occupies one byte")
+    oksz = _const_ret(lib, sb) == 1
+    if not oksz:
+        SSz = Sites(lib, sb)
+        oksz = len(SSz.calls) == 1 and SSz.calls[0]["name"] == SZ and self_ty(SSz.calls[0]["c"]) == "u8" and \
+            m(C(anykey, site=(sb.path, SSz.calls[0]["bb"])), pnorm(FnView(lib, sb).root.ret()))
+    ctx.check(oksz, "SER-MK", sb, "size-one", sb.span, "MatchKind occupies one byte")
 
 
 def _empty(ctx, lib, sty, bodies):
